@@ -22,32 +22,79 @@ pub fn prop() -> Option<&'static dyn Prop> {
     Some(&C19)
 }
 
-fn solo(src: &str, sched: bool) -> Result<String, String> {
-    panics::catch(|| compile_artefacts(src, sched, true).digest()).map_err(|p| p.signature())
+/// digest of one job compiled alone in a fresh child process (`mmv artefacts`)
+fn solo(src: &str, sched: bool, tag: u64) -> Result<String, String> {
+    let dir = "/verif/target/work/c19";
+    let _ = std::fs::create_dir_all(dir);
+    let path = format!("{dir}/{}-{tag:016x}.mmm", std::process::id());
+    std::fs::write(&path, src).map_err(|e| e.to_string())?;
+    let exe = std::env::current_exe().map_err(|e| e.to_string())?;
+    let mut cmd = std::process::Command::new(exe);
+    cmd.args(["artefacts", &path]);
+    if sched {
+        cmd.arg("--sched");
+    }
+    let out = cmd.output().map_err(|e| e.to_string());
+    let _ = std::fs::remove_file(&path);
+    let out = out?;
+    if !out.status.success() {
+        return Err(format!("child-died:{:?}", out.status.code()));
+    }
+    let v: Value = crate::engine::worker::child_result(&out.stdout)?;
+    Ok(v.get("digest").and_then(|d| d.as_str()).unwrap_or("").to_string())
 }
 
-/// run all jobs at once; returns per job Ok(digest) / Err(panic signature)
-fn together(jobs: &[(String, bool)], rounds: usize) -> Vec<Vec<Result<String, String>>> {
-    let mut all = vec![];
-    for _ in 0..rounds {
-        let barrier = Arc::new(Barrier::new(jobs.len()));
-        let handles: Vec<_> = jobs
-            .iter()
-            .cloned()
-            .map(|(src, sched)| {
-                let b = barrier.clone();
-                std::thread::Builder::new()
-                    .stack_size(16 * 1024 * 1024)
-                    .spawn(move || {
-                        b.wait();
-                        panics::catch(|| compile_artefacts(&src, sched, true).digest()).map_err(|p| p.signature())
-                    })
-                    .expect("spawn")
-            })
-            .collect();
-        all.push(handles.into_iter().map(|h| h.join().unwrap_or_else(|_| Err("thread-died".into()))).collect());
+/// run all jobs at once in THIS process (called in a fresh child: `mmv together`); per job
+/// Ok(digest) / Err(panic signature)
+pub fn together_here(jobs: &[(String, bool)]) -> Vec<Result<String, String>> {
+    let barrier = Arc::new(Barrier::new(jobs.len()));
+    let handles: Vec<_> = jobs
+        .iter()
+        .cloned()
+        .map(|(src, sched)| {
+            let b = barrier.clone();
+            std::thread::Builder::new()
+                .stack_size(16 * 1024 * 1024)
+                .spawn(move || {
+                    b.wait();
+                    panics::catch(|| compile_artefacts(&src, sched, true).digest()).map_err(|p| p.signature())
+                })
+                .expect("spawn")
+        })
+        .collect();
+    handles.into_iter().map(|h| h.join().unwrap_or_else(|_| Err("thread-died".into()))).collect()
+}
+
+/// one fresh child process that starts all jobs together (nothing was compiled in it before, so
+/// which thread interns, registers or caches something first is decided by the race alone)
+fn together(jobs: &[(String, bool)], tag: u64) -> Result<Vec<Result<String, String>>, String> {
+    let dir = "/verif/target/work/c19";
+    let _ = std::fs::create_dir_all(dir);
+    let path = format!("{dir}/{}-{tag:016x}.jobs.json", std::process::id());
+    let js: Vec<Value> = jobs.iter().map(|(s, sc)| json!({"text": s, "sched": sc})).collect();
+    std::fs::write(&path, serde_json::to_vec(&js).unwrap()).map_err(|e| e.to_string())?;
+    let exe = std::env::current_exe().map_err(|e| e.to_string())?;
+    let out = std::process::Command::new(exe).args(["together", &path]).output().map_err(|e| e.to_string());
+    let _ = std::fs::remove_file(&path);
+    let out = out?;
+    if !out.status.success() {
+        return Err(format!("child-died:{:?}", out.status.code()));
     }
-    all
+    let v: Value = crate::engine::worker::child_result(&out.stdout)?;
+    let arr = v.as_array().ok_or("no array")?;
+    Ok(arr
+        .iter()
+        .map(|x| match (x.get("ok").and_then(|d| d.as_str()), x.get("err").and_then(|d| d.as_str())) {
+            (Some(d), _) => Ok(d.to_string()),
+            (_, Some(e)) => Err(e.to_string()),
+            _ => Err("malformed".into()),
+        })
+        .collect())
+}
+
+fn differs(alone: &[Result<String, String>], r: &[Result<String, String>]) -> Option<usize> {
+    // a job that cannot even run alone (child died) is not judged
+    r.iter().enumerate().find(|(i, x)| !matches!(&alone[*i], Err(e) if e.starts_with("child-died")) && **x != alone[*i]).map(|(i, _)| i)
 }
 
 fn finish(jobs: &[(String, bool)], classes: Vec<String>, cx: &Cx) -> CaseResult {
@@ -60,35 +107,50 @@ fn finish(jobs: &[(String, bool)], classes: Vec<String>, cx: &Cx) -> CaseResult 
         r.direct = Some(direct);
         return r;
     }
-    let alone: Vec<Result<String, String>> = jobs.iter().map(|(s, sc)| solo(s, *sc)).collect();
-    let rounds = together(jobs, 2);
-    let mut bad: Option<(usize, String)> = None;
-    'o: for r in &rounds {
-        for (i, x) in r.iter().enumerate() {
-            if *x != alone[i] {
-                bad = Some((i, format!("job {i}: alone {:?}, concurrently {:?}", short(&alone[i]), short(x))));
-                break 'o;
+    // every job alone, each in its own fresh process
+    let alone: Vec<Result<String, String>> = jobs.iter().enumerate().map(|(i, (s, sc))| solo(s, *sc, hash ^ (i as u64 + 1))).collect();
+    // all jobs together, in fresh processes (a replay tries harder: the race is not ours to steer)
+    let attempts = if cx.strict { 8 } else { 2 };
+    let mut bad: Option<(usize, String, Result<String, String>)> = None;
+    let mut seen = 0u32;
+    for a in 0..attempts {
+        match together(jobs, hash ^ (0x100 + a as u64)) {
+            Err(e) => return CaseResult::discard(format!("child:{e}")),
+            Ok(r) => {
+                if let Some(i) = differs(&alone, &r) {
+                    seen += 1;
+                    if bad.is_none() {
+                        bad = Some((i, format!("job {i}: alone {:?}, concurrently {:?}", short(&alone[i]), short(&r[i])), r[i].clone()));
+                    }
+                }
             }
         }
     }
     let mut r = CaseResult::held(hash);
     let mut flaky = false;
-    if let Some((i, msg)) = bad {
-        // a verdict only if it reproduces on 3 of 3 further attempts
-        let again = together(jobs, 3);
-        let repro = again.iter().all(|r| r.iter().enumerate().any(|(k, x)| *x != alone[k]));
-        // and the solo result itself must be stable
-        let alone2: Vec<Result<String, String>> = jobs.iter().map(|(s, sc)| solo(s, *sc)).collect();
+    if let Some((i, msg, got)) = bad {
+        // the solo result itself must be stable (otherwise it is C15's subject)
+        let alone2: Vec<Result<String, String>> = jobs.iter().enumerate().map(|(k, (s, sc))| solo(s, *sc, hash ^ (k as u64 + 0x1000))).collect();
         if alone2 != alone {
-            return CaseResult::discard("solo-result-not-deterministic"); // C15's subject
+            return CaseResult::discard("solo-result-not-deterministic");
         }
-        if repro {
-            let kind = match (&alone[i], &rounds[0][i]) {
+        // a verdict needs a second observation: up to 10 more concurrent runs
+        let mut more = 0;
+        while seen < 2 && more < 10 {
+            if let Ok(r2) = together(jobs, hash ^ (0x200 + more as u64)) {
+                if differs(&alone, &r2).is_some() {
+                    seen += 1;
+                }
+            }
+            more += 1;
+        }
+        if seen >= 2 {
+            let kind = match (&alone[i], &got) {
                 (_, Err(e)) if e.contains("poison") => "poisoned-lock",
                 (_, Err(_)) => "panic-only-when-concurrent",
                 _ => "result-contaminated",
             };
-            r = CaseResult::fail(hash, format!("c19:{kind}"), msg);
+            r = CaseResult::fail(hash, format!("c19:{kind}"), format!("{msg} (seen in {seen} concurrent runs)"));
         } else {
             flaky = true;
         }
@@ -127,7 +189,7 @@ impl Prop for C19 {
     }
     fn spaces(&self, tier: Tier) -> Vec<Space> {
         match tier {
-            Tier::Quick => vec![Space { name: "stress", size: 160, exhaustive: false, chunk: 20, case_timeout_s: 300.0, what: "K=2..6 compile+run jobs (generated, shipped incl. macro/module programs, identical and near-identical sources, failing programs) started together on K threads, 2 rounds each" }],
+            Tier::Quick => vec![Space { name: "stress", size: 640, exhaustive: false, chunk: 20, case_timeout_s: 300.0, what: "K=2..6 compile+run jobs (generated, shipped incl. macro/module programs, identical and near-identical sources, failing programs) started together on K threads, 2 rounds each" }],
             Tier::Thorough => vec![Space { name: "stress", size: 6000, exhaustive: false, chunk: 40, case_timeout_s: 300.0, what: "K=2..6 concurrent compile+run jobs, 2 rounds each" }],
         }
     }
@@ -137,7 +199,7 @@ impl Prop for C19 {
         let mut jobs: Vec<(String, bool)> = vec![];
         let mut classes = vec![];
         for _ in 0..k {
-            match g.weighted(&[4, 4, 2, 1, 1]) {
+            match g.weighted(&[4, 4, 2, 1, 1, if jobs.is_empty() { 0 } else { 3 }]) {
                 0 => {
                     let mut pg = PG::new(g, cfg.clone());
                     let p = pg.program();
@@ -154,6 +216,12 @@ impl Prop for C19 {
                     }
                     jobs.push((s.clone(), sched));
                     classes.push("job:shipped".to_string());
+                }
+                5 => {
+                    // the identifiers of an earlier job, mentioned in a shuffled order
+                    let (s, _) = jobs[g.usize_below(jobs.len())].clone();
+                    jobs.push((crate::props::c15::ident_shuffle(&s, g), false));
+                    classes.push("job:ident-shuffle".to_string());
                 }
                 2 if !jobs.is_empty() => {
                     let j = jobs[g.usize_below(jobs.len())].clone();
@@ -196,15 +264,15 @@ impl Prop for C19 {
         out
     }
     fn rule(&self) -> String {
-        "Cases are sets of K=2..6 jobs; a job compiles a source for both backends and runs 8 samples on both runtimes (artefacts: bytecode listing, WASM bytes, state layouts, I/O channels, outputs; diagnostics or a panic signature for failing programs). Sources: generated programs, shipped sources (incl. programs with macros, which set the process environment variable, and modules), exact duplicates, near-duplicates differing in one literal, and broken texts. Each job is first run alone; then all jobs are started together on K OS threads behind a barrier, twice. Oracle: every job's artefacts equal its solo artefacts; no panic that does not also occur alone. A difference is reported only if it reproduces on 3 of 3 further concurrent attempts (otherwise it is counted as flaky-inconclusive). Non-trivial = at least two jobs that compile.".into()
+        "Cases are sets of K=2..6 jobs; a job compiles a source for both backends and runs 8 samples on both runtimes (artefacts: bytecode listing, WASM bytes, state layouts, I/O channels, outputs; diagnostics or a panic signature for failing programs). Sources: generated programs, shipped sources (incl. programs with macros, which set the process environment variable, and modules), exact duplicates, near-duplicates differing in one literal, and broken texts. Sources also include a program that mentions the identifiers of another job in a shuffled order. Each job is first run alone in its own fresh child process; then all jobs are started together on K OS threads behind a barrier in a fresh child process that has compiled nothing before (2 such processes per case). Oracle: every job's artefacts equal its solo artefacts; no panic that does not also occur alone. A difference is reported when it is seen in at least two concurrent runs (up to 10 further runs are made) and the solo artefacts are stable; otherwise it is counted as flaky-inconclusive. Non-trivial = at least two jobs that compile.".into()
     }
     fn assumptions(&self) -> Vec<String> {
         vec![
-            "interleavings are whatever the OS scheduler produces on this machine: the harness does not own the schedule, so a rare interleaving can be missed and a difference that does not reproduce 3 times is not reported".into(),
+            "interleavings are whatever the OS scheduler produces on this machine: the harness does not own the schedule, so a rare interleaving can be missed and a difference seen only once in 12 concurrent runs is not reported".into(),
             "deadlocks would show as a case hitting the 300 s limit, which this property treats as inconclusive".into(),
         ]
     }
     fn required_classes(&self, _tier: Tier) -> Vec<&'static str> {
-        vec!["job:generated", "job:shipped", "job:macro", "job:duplicate", "job:broken", "some-job-compiles", "identical-sources"]
+        vec!["job:generated", "job:shipped", "job:macro", "job:duplicate", "job:broken", "job:ident-shuffle", "some-job-compiles", "identical-sources"]
     }
 }
